@@ -994,6 +994,12 @@ func ProcessGanttChartRequest(ctx *fasthttp.RequestCtx, myid int64) {
 	searchRequestBody.From = 0
 	searchRequestBody.Size = 1000
 
+	// Trace ids are strings: an unquoted id made only of decimal digits would be
+	// searched as a number and match nothing.
+	if isOnlyTraceID, traceId := ExtractTraceID(searchRequestBody.SearchText); isOnlyTraceID {
+		searchRequestBody.SearchText = fmt.Sprintf(`trace_id="%s"`, traceId)
+	}
+
 	// Used to find out which attributes belong to tags
 	fieldsNotInTag := []string{"trace_id", "span_id", "parent_span_id", "service", "trace_state", "name", "kind", "start_time", "end_time",
 		"duration", "dropped_attributes_count", "dropped_events_count", "dropped_links_count", "status", "events", "links", "_index", "timestamp"}
